@@ -142,6 +142,109 @@ fn picture_with_vectors(fx: &Fixture, rng: &mut Rng, mbw: usize, mbh: usize, tar
     SymPicture { hdr, w: cfg.w, h: cfg.h, mbs, stuffing: vec![] }
 }
 
+fn mode_history_case(ctx: &Ctx, k: usize, rng: &mut Rng, rep: &mut Report) {
+    use crate::model::header::{PlusHeader, StdHeader};
+    let (fmt_w, fmt_h) = if k % 2 == 0 { (128usize, 96usize) } else { (176, 144) };
+    let coords = || J::obj().set("property", "C12").set("tier", ctx.tier_name()).set("seed", ctx.seed).set("stage", ctx.stage.clone()).set("kind", "modes").set("k", k);
+    let mut dec = Dec::new(false, false);
+    rep.evaluations += 1;
+    // the announcing picture: custom-format PLUSPTYPE header with UMV on
+    let accepted = k % 4 < 2;
+    let mut hd = StdHeader::baseline(rng.byte(), 7, !accepted, 1 + rng.below(31) as u8);
+    hd.plus = Some(PlusHeader {
+        ufep: 1,
+        src_fmt: 6,
+        custom_pcf: false,
+        umv: true,
+        sac: false,
+        ap: false,
+        aic: false,
+        df: false,
+        ss: false,
+        rps: false,
+        isd: false,
+        aiv: false,
+        mq: false,
+        ptype: if accepted { 0 } else { 1 },
+        rpr: false,
+        rru: false,
+        rtype: rng.chance(1, 2),
+        par: 2,
+        pwi: (fmt_w / 4 - 1) as u16,
+        phi: (fmt_h / 4) as u16,
+        epar: (1, 1),
+        cpcfc: 0,
+        etr: 0,
+        uui_unlimited: rng.chance(1, 2),
+        sss: 0,
+        elnum: 0,
+        rlnum: 0,
+        rpsmf: 4,
+        trp: None,
+    });
+    let nmb = ((fmt_w + 15) / 16) * ((fmt_h + 15) / 16);
+    let mbs: Vec<SymMb> = if accepted { (0..nmb).map(|_| intra_mb(rng)).collect() } else { (0..nmb).map(|_| SymMb::NotCoded).collect() };
+    let announce = SymPicture { hdr: Hdr::Std(hd), w: fmt_w, h: fmt_h, mbs, stuffing: vec![] };
+    match (dec.decode(&announce.encode()), accepted) {
+        (Outcome::Ok, true) | (Outcome::Err(_), false) => {}
+        (Outcome::Panic { msg, loc }, _) => {
+            rep.violation(format!("panic@{}", loc), format!("announcing picture panicked: {}", msg), coords());
+            return;
+        }
+        (o, _) => {
+            rep.count(&format!("skipped:modes-announce:{}", o.short()));
+            return;
+        }
+    }
+    // baseline pictures from here on
+    let mut cfg = crate::mon::ladder::cfg_for(rng, Flavour::StdFixed, fmt_w, fmt_h, 0);
+    let refpic = gen_reference(rng, &cfg);
+    if dec.decode(&refpic.encode()) != Outcome::Ok {
+        rep.count("skipped:modes-reference");
+        return;
+    }
+    let mut refp = dec.planes().unwrap();
+    for _ in 0..2 {
+        cfg.tr = cfg.tr.wrapping_add(1);
+        let pic = crate::mon::ladder::dense_inter(rng, &cfg);
+        let bytes = pic.encode();
+        match check_inter(&mut dec, &refp, &pic, &bytes) {
+            Ok((rec, got, _)) => {
+                // how many vectors needed the wrap? recompute from the differentials
+                let mbw = pic.mbw();
+                let mut wraps = 0u64;
+                for (i, m) in pic.mbs.iter().enumerate() {
+                    if let SymMb::Coded { kind, mvd, .. } = m {
+                        let mut cur = [[0i32; 2]; 4];
+                        for blk in 0..if kind.four() { 4 } else { 1 } {
+                            let p = crate::model::recon::predict_mv(&rec.mvs[..i], &cur, i, mbw, blk);
+                            for c in 0..2 {
+                                if p[c] + mvd[blk][c] != wrap_mv(p[c] + mvd[blk][c]) {
+                                    wraps += 1;
+                                }
+                            }
+                            cur[blk] = rec.mvs[i][blk];
+                        }
+                    }
+                }
+                rep.add("mode_history_wrapping_vectors", wraps);
+                rep.count("mode_history_pictures_checked");
+                rep.distinct.insert(fnv64(&bytes));
+                refp = got;
+            }
+            Err(f) if f.sig == "generator-invalid" => {
+                rep.inconclusive.push(f.detail);
+                return;
+            }
+            Err(f) => {
+                rep.violation(format!("modes/{}", f.sig), format!("baseline {}x{} picture after a PLUSPTYPE picture announcing unrestricted vectors ({}): {}", fmt_w, fmt_h, if accepted { "accepted" } else { "rejected" }, f.detail), coords());
+                return;
+            }
+        }
+    }
+    rep.count(if accepted { "mode_history:announced-by-accepted-picture" } else { "mode_history:announced-by-rejected-picture" });
+}
+
 pub fn run(ctx: &Ctx) -> (Report, String) {
     // part (a): 2 components x 64 x 64 pairs, split over shards by predictor value
     // part (b): sums; part (c): neighbour configurations
@@ -189,6 +292,24 @@ pub fn run(ctx: &Ctx) -> (Report, String) {
         rep.merge(Report::merge_all(lr));
         if ctx.is_main() && ctx.scale_pct == 100 {
             rep.require("wide_pictures_checked", 18);
+        }
+    }
+    // part (e): the wrap into [-16, 15.5] of a baseline picture's vectors does not depend on what
+    // earlier pictures announced: a PLUSPTYPE picture with unrestricted motion vectors switched on
+    // (accepted, or rejected for lack of a reference) precedes baseline pictures with large differentials
+    {
+        let n = ctx.n(64, 2000) as usize;
+        let lr = par_shards(n, ctx.threads, |k| {
+            let mut r = Report::new();
+            let mut rng = Rng::new(ctx.seed ^ 0xC12E, k as u64);
+            crate::mon::guarded(&mut r, || J::obj().set("property", "C12").set("kind", "modes").set("k", k), |r| mode_history_case(ctx, k, &mut rng, r));
+            r
+        });
+        rep.merge(Report::merge_all(lr));
+        if ctx.is_main() && ctx.scale_pct == 100 {
+            rep.require("mode_history:announced-by-accepted-picture", 10);
+            rep.require("mode_history:announced-by-rejected-picture", 10);
+            rep.require("mode_history_wrapping_vectors", 500);
         }
     }
     if ctx.is_main() && ctx.scale_pct == 100 {
@@ -397,6 +518,11 @@ fn shard(ctx: &Ctx, s: usize, flavours: &[Flavour], rep: &mut Report) {
 }
 
 /// Replay re-runs the whole shard that produced the witness (shards are small).
+pub fn replay_modes(ctx: &Ctx, k: usize, rep: &mut Report) {
+    let mut rng = Rng::new(ctx.seed ^ 0xC12E, k as u64);
+    mode_history_case(ctx, k, &mut rng, rep);
+}
+
 pub fn replay_shard(ctx: &Ctx, s: usize, rep: &mut Report) {
     shard(ctx, s, &[Flavour::Sor(0), Flavour::StdPlus], rep);
 }
